@@ -10,6 +10,10 @@ PROPERTY = 'C06'
 INF = float('inf')
 
 
+class Abort(BaseException):
+    """an application signal that does not derive from Exception (like KeyboardInterrupt)"""
+
+
 class Boom(Exception):
     pass
 
@@ -128,7 +132,7 @@ def h_res(cfg):
                     check('c06.foreign-release-harmless', res.count == snap[0] and list(res.users) == snap[1])
             except Interrupt as it:
                 on_interrupt(u, r, it)
-        elif script in ('with', 'withexc', 'withgiveup'):
+        elif script in ('with', 'withexc', 'withgiveup', 'withabort'):
             r = None
             try:
                 seq[0] += 1
@@ -158,8 +162,12 @@ def h_res(cfg):
                         yield env.timeout(num('h%d' % u))
                         if script == 'withexc':
                             raise Boom()
+                        if script == 'withabort':
+                            raise Abort()
             except Boom:
                 cover('with-exit-by-exception')
+            except Abort:
+                cover('with-exit-by-base-exception')
             except Interrupt as it:
                 on_interrupt(u, r, it)
             if r is not None:
@@ -291,6 +299,9 @@ def jobs(tier, seed):
                 js.append({'harness': 'res', 'weight': 100,
                            'cfg': {'kind': kind, 'capacity': 1, 'scripts': ['hold', mid, 'hold'], 'sorts': 'int',
                                    'fixed': {'0': [2, 0], '1': [0, 0], '2': [1, 1]}}})
+        # a with-block left by an exception that does not derive from Exception, caught further out: the slot is given back
+        js.append({'harness': 'res', 'weight': 60,
+                   'cfg': {'kind': kind, 'capacity': 1, 'scripts': ['withabort', 'hold'], 'sorts': 'int'}})
         # explicit cancel inside a with-block, then the block's own exit
         js.append({'harness': 'res', 'weight': 60,
                    'cfg': {'kind': kind, 'capacity': 1, 'scripts': ['hold', 'withgiveup', 'hold'] if kind == 'res' else ['hold', 'withgiveup'],
